@@ -12,6 +12,12 @@ CHECKS = {
         "(bulk copy only between identical representations). Every obligation is discharged on the repaired tree; the level is reported as 'other' because routing of every "
         "boundary crossing through this routine is decided by separate structural rules rather than a machine-checked proof.",
    note="trusted: clang 14 template instantiation + constant evaluation, the LP64 host model, the factdump extractor and the interval evaluator (unit-tested); floating point conversions are by design left to the language", ref="3/C06"),
+ "C10": dict(level="other", technique="path-sensitive must-pass-through analysis: every byte sink dominated by non-null + same-sandbox range check on the same start and extent (custom checker over clang AST facts)",
+   text="For every instantiation of the nine bulk entry points (memset/memcpy/memcmp, range/string/buffer-address verifiers, unverified_safe_pointer_because, grant/deny) and every structured path, "
+        "each byte sink (libc byte op, strlen, std::string(ptr,len), element loop, raw pointer hand-back, backend grant/deny) must be dominated by abort checks start != 0 and "
+        "is_in_same_sandbox(start, start+n-1) on the same start value and the same extent n that the sink uses, with n proven non-wrapping. Decides the structural necessary condition for all "
+        "start addresses and extents at once; it does not execute anything and does not decide the backend predicate itself.",
+   note="trusted: backend contract for impl_is_in_same_sandbox/impl_get_total_memory; clang front end; extractor and engine. strlen on sandbox memory is an accepted idiom (assumption recorded in evidence).", ref="3/C10"),
 }
 NA_REASON = "check under construction in this revision (see DESIGN.md section 3 for the planned static rules); not claimed yet"
 
